@@ -6,6 +6,10 @@ use crate::rng::Rng;
 /// size in 1..=max biased to small values
 pub fn size(rng: &mut Rng, max: usize) -> usize {
     // the `*_large` families: beyond the ordinary bound, up to 3.5 times as large
+    if crate::big() == 2 {
+        // a few cases far beyond the bound: orders above 256
+        return rng.us(258, 300);
+    }
     if crate::big() > 0 {
         return rng.us(max + 1, max * 7 / 2);
     }
